@@ -2,6 +2,7 @@ package sym
 
 import (
 	"fmt"
+	"strings"
 	"go/types"
 )
 
@@ -279,6 +280,18 @@ func registerIO(e *Engine) {
 		_, h, ok := handleOf(c.St, src.V)
 		if !ok {
 			panic(unsupported("io.Copy from a reader without model"))
+		}
+		if pf := c.St.fs().Files[h.File].Path; pf.Const && strings.HasPrefix(pf.S, "pipe:[") && c.St.Ghost[fmt.Sprintf("pipeclosed:%d", h.File)] == nil {
+			// reading a pipe to EOF: drains it (writers never block on capacity from now on)
+			// and returns only after the write end has been closed
+			c.St.Ghost[fmt.Sprintf("pipedrain:%d", h.File)] = True
+			c.Retry()
+			e.block(c.St, c.Th, &BlockCond{Kind: "pipe-closed", Obj: h.File})
+			succ, cont := e.schedule(c.St, c.sol2())
+			if cont {
+				return nil
+			}
+			return succ
 		}
 		data := StrConcat(c.St.fs().Files[h.File].Data...)
 		n := StrLen(data, 64)
